@@ -57,7 +57,7 @@ REGISTRY = {
                               "C13_diffusion_flux_2d", "C13_outplane_curl_2d", "C13_inplane_curl_2d",
                               "C13_update_vorticity_from_forcing_2d", "C13_brinkmann_2d", "C13_brinkmann_vec_2d",
                               "C13_elementwise_sum_2d", "C13_elementwise_copy_2d", "C13_elementwise_saxpby_2d"],
-        "correspondence": ["corr.cases2d:run_wrappers"],
+        "correspondence": ["corr.cases2d:run_wrappers", "corr.cases3d:run_wrappers"],
         "trusted_base": TB_KERNEL + ["hand-written wrapper programs (Model/Prog2D.lean) are trusted as far as the trace + numeric correspondence exercised them: every 2D public generator x option on non-square strided views, this run"],
         "assumptions": ["exact arithmetic for values; bit-identity of untouched cells/buffers is observed on the implementation (sentinel-padded strided views) and proved for the model"],
         "level_text": "Machine-checked proof (Lean 4) for the 2D public kernels: each wrapper program (element-wise algebra, boundary setters of any width, diffusion flux and out-of-plane curl with/without ghost-zone reset, in-plane curl, vorticity updates, Brinkmann scalar/vector) writes its closed form on its documented region and leaves every other cell and buffer unchanged, for all stores, scalars and grid sizes >= 1; generic frame theorems cover every program. The wrapper programs are hand-written models tied to the code by an exact kernel-call-trace comparison plus numeric execution of the model at Q against the implementation, and the implementation is additionally compared with an independent numpy reference. 3D wrappers: correspondence and reference only so far (theorems in progress).",
@@ -68,7 +68,7 @@ REGISTRY = {
         "modules": ["SophtVerif.Props.C20"],
         "required_theorems": ["C20_euler_diffusion_2d", "C20_euler_advection_2d", "C20_euler_diffusion_2d_explicit",
                               "C20_euler_advection_2d_explicit", "C20_ssprk3_nominal"],
-        "correspondence": ["corr.cases2d:run_wrappers"],
+        "correspondence": ["corr.cases2d:run_wrappers", "corr.cases3d:run_wrappers"],
         "oracle": "oracles.c20:run",
         "trusted_base": TB_KERNEL + ["SSP-RK3: the polynomial identity is proved for the abstract stage structure; that the kernel has this stage structure with full step in every stage is checked on the implementation by the oracle (stage prefactors) — program-level tie of the 3D kernel in progress"],
         "assumptions": ["exact arithmetic", "flux operator linear in vorticity for frozen velocity (abstract linear map A)"],
@@ -80,7 +80,7 @@ REGISTRY = {
         "modules": ["SophtVerif.Props.C15"],
         "required_theorems": ["C15_kernel_independent", "C15_ghost_is_max_offset", "C15_threads_forwarded",
                               "C15_schedule_free", "C15_schedule_free_eq_simultaneous", "C15_callsite_noalias_ns2d"],
-        "correspondence": ["corr.cases2d:run_step"],
+        "correspondence": ["corr.cases2d:run_step", "corr.cases3d:run_step"],
         "oracle": "oracles.c15:run",
         "trusted_base": TB_KERNEL + ["NOT reachable by this technique: real OpenMP execution (back end absent), FFTW plans that depend on the thread count, numba/LLVM fastmath reassociation — bit-level identity across thread counts is not claimed for FFT-based steps (DESIGN C15, finding F6)"],
         "assumptions": ["a parallel schedule is equivalent to some serial order of the per-cell updates (no torn writes)"],
@@ -106,7 +106,7 @@ REGISTRY = {
         "modules": ["SophtVerif.Props.C19"],
         "required_theorems": ["C19_brinkmann_2d", "C19_brinkmann_3d", "C19_brinkmann_fixed_2d", "C19_brinkmann_lagrangian",
                               "C19_heaviside", "brink_between", "brink_contracts"],
-        "correspondence": ["corr.cases2d:run_wrappers"],
+        "correspondence": ["corr.cases2d:run_wrappers", "corr.cases3d:run_wrappers"],
         "oracle": "oracles.c19:run",
         "trusted_base": TB_KERNEL + ["Real.sin / Real.pi instantiate the kernel's transcendental hooks (Transc); the recognised pi-multiples are listed in the evidence",
                                      "Lagrangian Brinkmann variant: one-line hand model, tied by the oracle"],
